@@ -133,15 +133,24 @@ def auxProg (F : Fns K) (A : AuxFns K) (P : Par K) : AuxId → Stmt K
       -- .adjoint(pwnorm_x, out=out): for vfi, oi: vfi.multiply(f, out=oi)
       .set out [tmp, nrm] (fun a i => a 0 i * a 1 (F.bidx i))
 
+/-- `2*c*(x[i] - x[i-1]**2) - 4*c*(x[i+1] - x[i]**2)*x[i] - 2*(1 - x[i])` -/
+def rosenInnerVal (c : K) (v : Vec K) (i : Nat) : K :=
+  (1 + 1) * c * (v i - v (i - 1) * v (i - 1))
+    - (1 + 1 + 1 + 1) * c * (v (i + 1) - v i * v i) * v i - (1 + 1) * (1 - v i)
+
+/-- `-4*c*(x[1] - x[0]**2)*x[0] + 2*(x[0] - 1)` -/
+def rosenFirstVal (c : K) (v : Vec K) : K :=
+  (-(1 + 1 + 1 + 1)) * c * (v 1 - v 0 * v 0) * v 0 + (1 + 1) * (v 0 - 1)
+
+/-- `2*c*(x[-1] - x[-2]**2)` -/
+def rosenLastVal (c : K) (n : Nat) (v : Vec K) : K :=
+  (1 + 1) * c * (v (n - 1) - v (n - 2) * v (n - 2))
+
 /-- `RosenbrockFunctional.gradient` : `RosenbrockGradient._call(x, out)` (example_funcs.py), for a
-domain of size `n ≥ 2` and scale `c` (`P.a`): one statement per scalar assignment `out[i] = …`,
-in the order of the code (interior indices ascending, then `out[0]`, then `out[-1]`). -/
+domain of size `n ≥ 2` and scale `c`: one statement per scalar assignment `out[i] = …`, in the
+order of the code (interior indices ascending, then `out[0]`, then `out[-1]`). -/
 def rosenInner (c : K) (i : Nat) : Stmt K :=
-  -- out[i] = 2*c*(x[i] - x[i-1]**2) - 4*c*(x[i+1] - x[i]**2)*x[i] - 2*(1 - x[i])
-  .set out [out, x] (fun a k => if k = i then
-      (1 + 1) * c * (a 1 i - a 1 (i - 1) * a 1 (i - 1))
-        - (1 + 1 + 1 + 1) * c * (a 1 (i + 1) - a 1 i * a 1 i) * a 1 i - (1 + 1) * (1 - a 1 i)
-    else a 0 k)
+  .set out [out, x] (fun a k => if k = i then rosenInnerVal c (a 1) i else a 0 k)
 
 def rosenLoop (c : K) : List Nat → Stmt K
   | [] => .skip
@@ -149,14 +158,13 @@ def rosenLoop (c : K) : List Nat → Stmt K
 
 def rosenProg (c : K) (n : Nat) : Stmt K :=
   rosenLoop c ((List.range (n - 2)).map (· + 1)) ;;
-  -- out[0] = -4*c*(x[1] - x[0]**2)*x[0] + 2*(x[0] - 1)
-  .set out [out, x] (fun a k => if k = 0 then
-      (-(1 + 1 + 1 + 1)) * c * (a 1 1 - a 1 0 * a 1 0) * a 1 0 + (1 + 1) * (a 1 0 - 1)
-    else a 0 k) ;;
-  -- out[-1] = 2*c*(x[-1] - x[-2]**2)
-  .set out [out, x] (fun a k => if k = n - 1 then
-      (1 + 1) * c * (a 1 (n - 1) - a 1 (n - 2) * a 1 (n - 2))
-    else a 0 k)
+  .set out [out, x] (fun a k => if k = 0 then rosenFirstVal c (a 1) else a 0 k) ;;
+  .set out [out, x] (fun a k => if k = n - 1 then rosenLastVal c n (a 1) else a 0 k)
+
+/-- The body with the proposed repair `if out is x: x = x.copy()` in front (NOT the code of
+/repo; used to state that the repair suffices). -/
+def rosenFixed (c : K) (n : Nat) : Stmt K :=
+  .ifIs x out (.new x [x] (fun a => a 0)) .skip ;; rosenProg c n
 
 end
 
